@@ -115,6 +115,9 @@ def carry_time(secs, carrier, tbase, tunit=1):
     """secs: list of ints (relative time in units of tunit seconds) -> time input."""
     if tunit != 1:
         return carry_time_frac(secs, carrier, tbase, tunit)
+    if any(s == NA for s in secs) and carrier == "dt64ns":
+        # observations without a time: NaT (only used by the growth check on such inputs)
+        return np.array([np.datetime64("NaT") if s == NA else np.datetime64(tbase + s, "s") for s in secs], dtype="datetime64[ns]")
     ep = [tbase + s for s in secs]
     a_s = np.array(ep, dtype="int64").astype("datetime64[s]")
     if carrier == "dt64ns":
@@ -305,7 +308,9 @@ def build(call, conc):
             kw["range_max"] = rat(p["rmax"])
         if p.get("shapes") == "differ":
             kw["lon"] = np.asarray(np.ma.filled(np.ma.masked_invalid(np.array(
-                [math.nan if v is None else v for v in list(kw["lon"])], dtype=np.float64)), np.nan)).reshape(1, -1)
+                [math.nan if v is None else v for v in list(kw["lon"])], dtype=np.float64)), np.nan))
+            # a row vector or a column vector against the flat latitude (same size, another shape)
+            kw["lon"] = kw["lon"].reshape(1, -1) if len(call["lon"]) % 2 else kw["lon"].reshape(-1, 1)
         return qartod.location_test, kw
     if fn == "speed":
         half = lambda v: v * 0.5  # noqa: E731
